@@ -25,6 +25,7 @@ os.makedirs(EVIDENCE, exist_ok=True)
 os.makedirs(REPLAYS, exist_ok=True)
 
 ENV = dict(os.environ)
+ENV.setdefault("TSS_FIXTURES", os.path.join(os.path.dirname(os.path.dirname(os.path.abspath(__file__))), "fixtures", "c19"))
 ENV.update({"CARGO_NET_OFFLINE": "true", "GOPROXY": "off", "PIP_NO_INDEX": "1"})
 
 
